@@ -518,6 +518,8 @@ def csv_reader_oracle(obs, world):
         gname = str(c).strip("'\"") if isinstance(c, KeyError) else None
         if gname in graphs and gname not in released_graphs and gname.split("@")[0] in closed_loop:
             cause = "closed-loop-follow-up-graph-has-no-TASK_GRAPH_RELEASE-row"
+        elif isinstance(c, TypeError) and "TASK_PLACEMENT" in str(e) and str(e).split(" from ")[0].rstrip().endswith("'']"):
+            cause = "placement-row-of-a-strategy-that-demands-nothing-ends-with-an-empty-field"
         else:
             cause = "unclassified"
         yield (f"C08 csvreader-rejects-trace {type(c).__name__ if c else type(e).__name__} cause={cause}", {"error": str(e)[:300], "cause": repr(c)[:200]})
